@@ -12,14 +12,13 @@ import (
 	ap "github.com/go-ap/activitypub"
 )
 
-const c15FoldClass = "unicode-fold-collection-name"
-
 // path segments of wide owners: everything url.Parse takes in a path but "?", "#", control bytes and malformed escapes
 var c15WideSegs = []string{"a", "users", "alice", "Alice", "inbox", "Outbox", "likes", "FOLLOWING", "replies", "liked", ".", "..", "a%2Fb", "a%2Finbox", "%41", "a%20b", "%25",
 	"a%3Fb", "x%23y", "é", "É", "%C3%A9", "%c3%a9", "%C3%89", "jürgen", "J%C3%9CRGEN", "\xff", "\xfe", "%ff", "%FE", "\xe2%84%aa", "%E2%84", "\xe2\x84", "a b", "a\"b", "<x>", "[y]", "{z}",
 	"^`|", "\\", "*", "\U0001F600", "%F0%9F%98%80", "a+b", "a:b", "%3A", ":", "inbo%78", "%2f", "x%2F"}
 
-// segments that are a collection name for strings.EqualFold only: U+212A KELVIN SIGN for "k", U+017F for "s"
+// segments that are a collection name for strings.EqualFold only: U+212A KELVIN SIGN for "k", U+017F for "s"; the
+// repaired code (sameCollectionName) must not take them for names - judged like every other owner
 var c15FoldSegs = []string{"liKed", "li%E2%84%AAed", "li%e2%84%aaed", "LIKED", "liKes", "likeſ", "like%C5%BF", "ſhareſ", "replieſ", "followerſ", "outbox%C5%BF"}
 
 func (g *Gen) c15WideOwner(foldName bool) c15Owner {
@@ -202,17 +201,18 @@ func c15Wide(g *Gen, rep *Report, outDir string, n int) error {
 		rep.Evaluations++
 		last := c15LastSeg(o)
 		wantValid := c15IsName(last)
+		if wantValid {
+			rep.Count("native:wide-owner-last-segment-is-a-name")
+		} else if strings.EqualFold(last, "liked") || strings.EqualFold(last, "likes") || strings.EqualFold(last, "shares") || strings.EqualFold(last, "replies") ||
+			strings.EqualFold(last, "followers") || strings.EqualFold(last, "outbox") || strings.EqualFold(last, "inbox") || strings.EqualFold(last, "following") {
+			rep.Count("native:wide-owner-last-segment-is-a-name-by-unicode-folding-only") // must NOT be recognised
+		}
 		if got := ap.ValidCollectionIRI(ap.IRI(o.s)); got != wantValid {
-			cls := ""
-			for _, nm := range c15Names {
-				if got && strings.EqualFold(last, nm) {
-					cls = c15FoldClass // a name for Unicode simple folding only (KELVIN SIGN, LONG S)
-				}
-			}
-			if cls != "" {
-				rep.Count("native:owner-last-segment-is-a-name-by-unicode-folding-only")
-			}
-			rep.Violate(Violation{Op: "ValidCollectionIRI(owner) (wide owner)", Input: o.s, Expected: fmt.Sprint(wantValid), Observed: fmt.Sprint(got), Index: k, Class: cls})
+			rep.Violate(Violation{Op: "ValidCollectionIRI(owner) (wide owner)", Input: o.s, Expected: fmt.Sprint(wantValid), Observed: fmt.Sprint(got), Index: k})
+		}
+		// Split of the owner itself: a name is handed out only when the last segment is one (ASCII case apart)
+		if _, sc := ap.Split(ap.IRI(o.s)); (sc != "") != wantValid {
+			rep.Violate(Violation{Op: "Split(owner) collection name (wide owner)", Input: o.s, Expected: fmt.Sprintf("a name: %v", wantValid), Observed: fmt.Sprintf("%q", string(sc)), Index: k})
 		}
 	}
 	return nil
